@@ -2,11 +2,48 @@
 //!
 //! Shares no code with darklua or full_moon.  Entry points:
 //!
-//! * [`lex`] — token stream + comment list,
-//! * [`parse`] / [`parse_expr`] — reference AST (`ast.rs`) plus token list and type-syntax spans,
+//! * [`lex()`] — token stream + comment list,
+//! * [`parse()`] / [`parse_expr`] — reference AST (`ast.rs`) plus token list and type-syntax spans,
 //! * [`decode_string`] / [`decode_number`] / [`decode_interp_segment`] — literal decoder,
-//! * [`census`] — Luau feature census,
-//! * [`resolve`] — binding resolver.
+//! * [`census()`] — Luau feature census,
+//! * [`resolve()`] — binding resolver.
+//!
+//! # Behaviour worth knowing (all covered by unit tests)
+//!
+//! Faithful to the reference implementations (Lua 5.1 `llex.c`/`lparser.c`, Luau `Lexer`/`Parser`):
+//!
+//! * `return`, `break` and `continue` must be the last statement of their block (both modes);
+//!   `break` / `continue` outside a loop and `...` outside a vararg function are errors (these two
+//!   context checks can be switched off with [`parse_with_options`]).  A lone `;` is an error.
+//! * Luau: a simple expression takes at most one `:: T` (`a :: T :: U` is an error); `-x :: T` is
+//!   `-(x :: T)`; `a :: T < b` reads `<` as generic arguments (error); `x: T<A>= 1` fails (`>=`).
+//! * Luau types: `?` counts as a union: `A & B?`, `A | B & C` are errors without parentheses.
+//!   In return position `-> (A)` and as a type argument `T<(A)>` a parenthesised single type is a
+//!   one-element *pack* (`ReturnType::Pack` / `TypeArg::Pack`), unless `?`, `|` or `&` follows (then
+//!   it is `Type::Paren` with that suffix).  `(A) -> (B, C) | D` is `((A) -> (B, C)) | D`.
+//!   `{T}` is an array type only as the sole entry without separator; `{ read }` is an array of
+//!   type `read`; `read`/`write` are modifiers only before a name or `[`.
+//! * `continue`, `type`, `export`, `const` are statements only when the bare name is not followed by
+//!   something that continues an expression statement (`continue\n(f)()` is a call).
+//! * Interpolated strings: empty literal pieces are omitted from `Expr::Interp`.
+//! * Long-bracket strings: Lua 5.1 treats CRLF, LFCR, CR, LF as one newline each (leading one
+//!   dropped, others become LF); Luau only CRLF and LF (a lone CR stays a CR byte).
+//! * Numbers (Luau): all `_` are removed before anything else, so even `0_x10` is 16.
+//!
+//! Deliberately more permissive than the reference Luau parser:
+//!
+//! * a call whose `(` is on a new line is accepted in Luau mode (recorded in
+//!   `ParseOutput::ambiguous_calls`); 5.1 mode rejects it ("ambiguous syntax").
+//! * `f < < T > > ()`: the two `<` / `>` of an instantiation may be separated by trivia.
+//! * attribute names and argument expressions are not validated; several table indexers are accepted;
+//!   hex/binary literals wider than 64 bits are rounded correctly instead of being an error.
+//!
+//! Not representable in `ast.rs`, hence rejected: `obj:method<<T>>()`.
+//!
+//! Limits: 200 nested syntax levels (as Lua 5.1; `..` chains do not count), and at most 1000
+//! operator / suffix edges along any path of the tree ([`parse::MAX_DEPTH`], [`parse::MAX_CHAIN`]).
+//! Parsing never needs more than ~0.5 MiB of the caller's stack: deep inputs are re-parsed on a
+//! dedicated thread.
 
 pub mod ast;
 pub mod census;
